@@ -5,9 +5,14 @@
    verbatim; the theorems are about WHERE they are put.  Not modelled here:
    CreateHalfedges / DedupePropVerts / SortGeometry on the import side (the
    harness compares the real export of the real re-import field by field). *)
+From Coq Require Import QArith.
+From MV Require Import Codec.ObjDigits.
 From Coq Require Import ZArith List Bool.
 From MV Require Import Codec.IngestDefs Codec.ExportIngestDefs Codec.ExportIngestModel Codec.MeshGLDefs Codec.MeshGLModel.
-From MV Require Gen.Ladder.
+From MV Require Import Codec.RoundtripDefs Codec.RoundtripModel.
+From MV Require Par.Containers Codec.MergeDefs Codec.MergeModel.
+From MV Require Gen.Ladder Gen.ObjPrecision.
+From Coq Require Import Permutation.
 Import ListNotations.
 Local Open Scope Z_scope.
 
@@ -117,3 +122,107 @@ Theorem merge_direction_matters :
   p2v (merges st) 2 = rep st 0 /\ p2v_swapped (merges st) 2 <> rep st 0.
 Proof. exact swapped_merge_breaks. Qed.
 Print Assumptions merge_direction_matters.
+
+(* OBJ text (fix c2786ed5): with `std::scientific` and precision p such that
+   10^p > 2^53 (precision_ok; p = 16 gives 17 significant digits) the printed
+   decimal d of a positive double x - within half a decimal step a/(2*10^p) of
+   x, a <= x the decade of x - is strictly closer to x than to any other
+   double y (doubles in x's binade [b, 2b) are b/2^52 apart, those just below b
+   are b/2^53 apart), so a correctly rounded parse returns x.  Rational
+   arithmetic; the sign is symmetric and zero is printed exactly.  The
+   precision constant and the notation are read from src/impl.cpp into
+   Gen/ObjPrecision.v and the check evaluates obj_format_ok on them. *)
+Theorem obj_decimal_digits_determine_double :
+  forall (p : Z) (b a x y d delta : Q),
+    precision_ok p = true ->
+    (0 < b -> b <= x -> x < 2 * b ->
+     0 < a -> a <= x ->
+     2 * inject_Z (10 ^ p) * delta == a ->
+     x - delta <= d -> d <= x + delta ->
+     (x + b / inject_Z (2 ^ 52) <= y \/ y <= x - b / inject_Z (2 ^ 52) \/
+      (x == b /\ y <= x - b / inject_Z (2 ^ 53))) ->
+     (d - x < y - d /\ x - d < y - d) \/ (d - x < d - y /\ x - d < d - y))%Q.
+Proof. exact obj_digits_roundtrip. Qed.
+Print Assumptions obj_decimal_digits_determine_double.
+
+Theorem obj_precision_threshold :
+  precision_ok 16 = true /\ precision_ok 15 = false.
+Proof. exact precision_16_ok. Qed.
+Print Assumptions obj_precision_threshold.
+
+(* roundtrip (partial): export (import (export s)) carries the same per-triangle
+   records as export s - (originalID, run transform, flags, faceID), the
+   position of every corner, the property row of every corner, the tangent of
+   every edge - up to a permutation of the triangles, for EVERY vertex
+   renumbering sigma (SortVerts), property-vertex compaction tau and
+   DedupePropVerts map q, every face permutation oracle `perm` (SortFaces)
+   and start ID; no triangle is dropped as degenerate (the merge vectors send the
+   three corners of a triangle to three different vertices).
+   _partial: CreateHalfedges' pairing and its removal of opposed triangle pairs,
+   IsManifold, CleanupTopology being a no-op on the export of a clean Impl and
+   SetNormalsAndCoplanar are NOT modelled (hypotheses; the harness runs the real
+   code); import is modelled on the exported data of the composed export. *)
+Theorem roundtrip_records_partial :
+  forall (sigma tau q : Z -> Z) (perm : list rtri -> list rtri) (startID : Z) (s : rimpl),
+    (forall l, Permutation (perm l) l) ->
+    rel_ok s ->
+    Permutation (export_recs (reimport_full sigma tau q perm startID s)) (export_recs s).
+Proof. exact roundtrip_records_model. Qed.
+Print Assumptions roundtrip_records_partial.
+
+Example roundtrip_example_two_runs :
+  (rel_ok w_rimpl /\ consistent (rtris w_rimpl)) /\
+  export_recs (reimport_full (fun v => v + 7) (fun p => p + 3) (fun i => i) (fun l => rev l) 50 w_rimpl)
+  = export_recs w_rimpl.
+Proof. exact (conj w_rimpl_ok roundtrip_example). Qed.
+
+(* the vertex bijection: every corner's vertex v becomes sigma (rep v), a function
+   of v alone, where rep is injective on the vertices in use (and so is the
+   composite when sigma is) - positions travel with the corners *)
+Theorem roundtrip_vertex_renaming :
+  forall (sigma tau q : Z -> Z) (l : list rtri) (t : rtri) (ib : itri),
+    In t l -> well_shaped t ->
+    tverts (base (import_one sigma tau q (dup (corners_of l)) t ib))
+    = map (fun v => sigma (rep (dup (corners_of l)) v)) (tverts (base t)) /\
+    (forall v w p p', In (v, p) (corners_of l) -> In (w, p') (corners_of l) ->
+       rep (dup (corners_of l)) v = rep (dup (corners_of l)) w -> v = w).
+Proof.
+  exact (fun sigma tau q l t ib Ht Hw =>
+    conj (imported_verts sigma tau q l t ib Ht Hw) (fun v w p p' => rep_injective (corners_of l) v w p p')).
+Qed.
+Print Assumptions roundtrip_vertex_renaming.
+
+(* the re-imported state is again a consistent Impl (an index determines its position /
+   property row), provided DedupePropVerts only unites property vertices of one vertex
+   with exactly equal rows (dedupe_sound: what its union-find over equal rows yields)
+   and the renumberings are injective *)
+Theorem roundtrip_consistent :
+  forall (sigma tau q : Z -> Z) (perm : list rtri -> list rtri) (startID : Z) (s : rimpl),
+    (forall l, Permutation (perm l) l) ->
+    rel_ok s -> consistent (rtris s) ->
+    let srt := rsort (rtris s) in let st := dup (corners_of srt) in
+    dedupe_sound q st srt ->
+    inj_on sigma (fun r => 0 <= r) -> inj_on tau (fun _ => True) ->
+    consistent (rtris (reimport_full sigma tau q perm startID s)).
+Proof. exact reimport_consistent. Qed.
+Print Assumptions roundtrip_consistent.
+
+(* merge_rederives (partial): on a mesh without merge vectors, with the collider
+   reporting exactly the overlapping pairs of open-edge vertices (C14) and
+   positions further apart than the merge tolerance unless equal, MeshGL::Merge's
+   union-find (C13's sequential model) merges two vertices exactly when they are
+   equal or both lie on open edges at the same position.
+   _partial: that every duplicate of a property seam IS an open-edge vertex (a
+   statement about fans of a closed manifold) is not proved; Morton sorting and
+   the tolerance boxes are inside the collider oracle. *)
+Theorem merge_rederives_partial :
+  forall (n : nat) (tris : list (nat * nat * nat)) (pos : nat -> Z) (overlap : nat -> nat -> bool)
+         (reported : list (nat * nat)) (st : Containers.uf_state),
+    MergeDefs.collider_exact tris overlap reported -> MergeDefs.separated pos overlap ->
+    Forall (Containers.valid n) reported ->
+    Containers.uf_run_seq n reported = Some st ->
+    forall a b, (a < n)%nat -> (b < n)%nat ->
+      (MergeDefs.merged st a b <->
+       (a = b \/ (MergeDefs.is_open tris a = true /\ MergeDefs.is_open tris b = true /\ pos a = pos b))).
+Proof. exact MergeModel.merge_partition. Qed.
+Print Assumptions merge_rederives_partial.
